@@ -177,3 +177,15 @@ Proof.
   intros r g q. unfold loc_dim_fast. destruct (Z.ltb_spec 0 (hw q)) as [H|H]; [|reflexivity].
   unfold loc_dim_h. apply loc_dim_f_eq. exact H.
 Qed.
+
+(* ------------------------------------------------------------------ the paths certified by eps_ok end in the side witnesses *)
+Lemma side_paths_witnesses : forall A B s sg m p, In (s, sg, m, p) (side_paths A B) -> In (m, 1) (witnesses A B) /\ In (p, 2) (witnesses A B).
+Proof.
+  intros A B s sg m p H. unfold side_paths in H. apply in_flat_map in H. destruct H as (s' & Hs' & H).
+  destruct (existsb (seg_eqb s') (ring_segs A ++ ring_segs B)) eqn:E; [|destruct H].
+  apply in_flat_map in H. destruct H as (pq & Hpq & H).
+  assert (Hw : forall w, In w [(midh (fst pq) (snd pq), 1); (shift 1 (fst s') (snd s') (midh (fst pq) (snd pq)), 2); (shift (-1) (fst s') (snd s') (midh (fst pq) (snd pq)), 2)] -> In w (witnesses A B)).
+  { intros w Hw. unfold witnesses. apply in_or_app. right. apply in_flat_map. exists s'. split; [exact Hs'|].
+    rewrite E. unfold seg_witnesses. apply in_flat_map. exists pq. split; [exact Hpq | exact Hw]. }
+  cbn [In] in H. destruct H as [H | [H | []]]; inversion H; subst; split; apply Hw; cbn [In]; auto.
+Qed.
